@@ -154,36 +154,43 @@ Print Assumptions C20_dedup_late_not_idempotent.
 
 (* 9. Which resource names a page USES is decided by a scanner over the decoded content
       (parseContent; model: used_names).  On content built from the grammar
-          segment ::= [ " (" body ") Tj" ]  use          body ::= (plain byte | '\' any byte)*
+          segment ::= [ " (" body ") Tj" ]  use
+          body    ::= (plain byte | '\' any byte)*    with balanced unescaped parentheses
           use     ::= " /n 12 Tf" | " /n Do" | " /n gs" | " /n cs" | " /Pattern cs /n scn"
                     | " /n sh" | " /T /n BDC"
-      (plain byte: anything but '\' and ')'; so bodies contain \\ at the end, runs of
-      backslashes before ')' and '(', \) \( octal escapes, line continuations, '/', '<', '[', '%')
+      (plain byte: anything but '\'; unescaped '(' ')' nested to ANY depth as long as they
+      balance -- balb; so bodies contain \\ at the end, runs of backslashes before ')' and '(',
+      \) \( octal escapes, line continuations, nested (a (b (c)) d), '/', '<', '[', '%')
       the scanner reports exactly the names in operator position, with their categories, in
-      order: no name used after a string is lost, whatever the string contains. *)
+      order: no name used after a string is lost, whatever the string contains.
+      (Unbalanced strings -- illegal, seen in the wild -- go through the modelled fallback, the
+      first ')' preceded by an even number of backslashes; the theorem is about balanced ones.) *)
 Theorem C20_used_names_exact : forall segs,
   forallb seg_ok segs = true ->
   used_names (renderSegs segs) = SOk (map segName segs).
 Proof. exact used_names_exact. Qed.
 Print Assumptions C20_used_names_exact.
 
-(* ... the grammar has no unescaped parentheses inside a string: nested balanced parentheses
-   (legal PDF) are NOT understood by the scanner -- REFUTED: "(x (y) /F9 z) Tj /F2 12 Tf"
-   uses /F2 and the scanner reports nothing; consolidation then prunes /F2 from the page
-   (reproduced on api.Optimize: class content-scanner-nested-parentheses-lose-used-resource). *)
-Theorem C20_scanner_nested_parens_refuted : used_names nested_content = SOk [].
-Proof. exact nested_parens_refuted. Qed.
-Print Assumptions C20_scanner_nested_parens_refuted.
+(* the two former defect witnesses: nested balanced parentheses ("(x (y) /F9 z) Tj /F2 12 Tf",
+   class content-scanner-nested-parentheses-lose-used-resource, before 896a0b77) and the
+   run-on string ("(a) Tj /F2 12 Tf %)", class content-scanner-string-runs-on-to-later-parenthesis,
+   896a0b77 without b5e38ac0): /F2 is reported in both *)
+Theorem C20_scanner_former_witnesses :
+  used_names nested_content = SOk [(CFont, [70; 50]%N)] /\
+  used_names runon_content = SOk [(CFont, [70; 50]%N)].
+Proof. exact former_witnesses. Qed.
+Print Assumptions C20_scanner_former_witnesses.
 
 (* ---- non-vacuity ---- *)
 (* "(Folder C:\\) Tj /F2 12 Tf (a\\\) b\(\101) Tj /Im1 Do /GS1 gs" *)
 Definition ex_segs : list seg :=
   [ (Some [APlain 67; APlain 58; AEsc 92], UFont, [70; 50]%N);
+    (Some [APlain 120; APlain 40; APlain 121; APlain 40; APlain 47; APlain 41; AEsc 41; APlain 41; APlain 37], UShading, [83; 104; 49]%N);
     (Some [APlain 97; AEsc 92; AEsc 41; APlain 32; APlain 98; AEsc 40; AEsc 49; APlain 48; APlain 49], UXObject, [73; 109; 49]%N);
     (None, UExtGState, [71; 83; 49]%N) ].
 Example C20_scanner_nonvacuous :
   forallb seg_ok ex_segs = true /\
-  used_names (renderSegs ex_segs) = SOk [(CFont, [70; 50]%N); (CXObject, [73; 109; 49]%N); (CExtGState, [71; 83; 49]%N)].
+  used_names (renderSegs ex_segs) = SOk [(CFont, [70; 50]%N); (CShading, [83; 104; 49]%N); (CXObject, [73; 109; 49]%N); (CExtGState, [71; 83; 49]%N)].
 Proof. split; vm_compute; reflexivity. Qed.
 
 (* two cyclic font-like structures (child <-> parent back references) with different
